@@ -11,17 +11,24 @@ Real provider + real consumer service clients (GetService, ContextService, Local
     returned text is a stored text and satisfies every given constraint), exact content only for the unconstrained request and for
     GetSupportedLanguages.  Completeness of width / lines constrained requests is NOT demanded ("best match" is implementation
     defined).
+(3) round 4: the CONTENT of every returned state is compared with the MDIB (not only handle + version); one handle of every descriptor
+    NODETYPE, very long lists and handles of removed context states are asked in every world (vf.c20_more); both provider component
+    sets (sync / async); the option contextstates_in_getmdib is switched while the provider runs; the same monitors run over REAL
+    sockets with the library's default components (vf.realworld); texts: boundary values of every filter parameter and boundary stores,
+    the storage driven through its whole API (constructor with texts, add, replacement of the storage object = the only way to remove
+    texts), GetSupportedLanguages asked again after every change of the store.
 """
 from __future__ import annotations
 
+import os
 from collections import Counter
 
 from sdc11073.provider.porttypes.localizationservice import LocalizationStorage
 from sdc11073.xml_types import pm_qnames as pm
 from sdc11073.xml_types import pm_types
 
-from .. import core, mdibops
-from ..history import snap
+from .. import c20_more, core, mdibops
+from ..history import canon, first_difference, snap, tolerant_equal
 from ..mdibharness import MDIB_FILES, World
 
 MODULE = 'vf.props.c20'
@@ -168,17 +175,30 @@ def judge_states(ctx, service, s, handles, result, detail):
         # provider option: context states are served by GetContextStates only; GetMdib / GetMdState do not contain them (documented behaviour of
         # SdcProvider.contextstates_in_getmdib) - the selection rules apply to the single states
         want = Counter({k: n for k, n in want.items() if k[0] != 'ctx'})
-    got = observed_selection(result.MdState.State if service == 'GetMdState' else result.ContextState)
+    returned = result.MdState.State if service == 'GetMdState' else result.ContextState
+    got = observed_selection(returned)
     key = 'getmdstate' if service == 'GetMdState' else 'getcontextstates'
     ctx.count(f'{key}.responses')
     ctx.count(f'{key}.states_returned', sum(got.values()))
+    # "that state": a returned state whose identity and version are those of a selected MDIB state carries the content of that state
+    content_ok = True
+    for st in returned:
+        ident = ('ctx', st.Handle, st.StateVersion) if st.is_context_state else ('state', st.DescriptorHandle, st.StateVersion)
+        if ident not in want:
+            continue
+        ctx.count(f'{key}.contents_compared')
+        mine, theirs = canon(st), s['ctx' if ident[0] == 'ctx' else 'states'][ident[1]]
+        if not tolerant_equal(theirs, mine):
+            content_ok = False
+            ctx.witness(f'{key}.state_content_differs', f'{service} returns a selected state with a content different from the MDIB state',
+                        {**detail, 'handles': short_handles(handles), 'state': list(ident), 'difference (mdib != response)': first_difference(theirs, mine)})
     if got == want:
-        return True
+        return content_ok
     want_ids = {(k, h): v for k, h, v in want}
     got_ids = Counter()
     for (k, h, v), n in got.items():
         got_ids[(k, h)] += n
-    info = {**detail, 'handles': handles, 'expected': sorted(want)[:8], 'observed': sorted(got.elements())[:12]}
+    info = {**detail, 'handles': short_handles(handles), 'expected': sorted(want)[:8], 'observed': sorted(got.elements())[:12]}
     ok_versions = True
     for (k, h, v) in got:
         if (k, h) in want_ids and want_ids[(k, h)] != v:
@@ -205,12 +225,13 @@ def judge_states(ctx, service, s, handles, result, detail):
 
 
 def add_context_descriptors(mdib):
-    """every SystemContext gets an EnsembleContext; a SystemContext without Patient/LocationContext gets them (second MDS)."""
+    """every SystemContext gets the context descriptor kinds it does not have yet (all six kinds exist under every MDS afterwards)."""
     made = []
     with mdib.descriptor_transaction() as mgr:
         for sc in sorted(d.Handle for d in mdib.descriptions.NODETYPE.get(pm.SystemContextDescriptor, [])):
             children = {d.NODETYPE for d in mdib.descriptions.parent_handle.get(sc, [])}
-            for qn, prefix in ((pm.PatientContextDescriptor, 'PCx'), (pm.LocationContextDescriptor, 'LCx'), (pm.EnsembleContextDescriptor, 'ECx')):
+            for qn, prefix in ((pm.PatientContextDescriptor, 'PCx'), (pm.LocationContextDescriptor, 'LCx'), (pm.EnsembleContextDescriptor, 'ECx'),
+                               (pm.OperatorContextDescriptor, 'OCx'), (pm.WorkflowContextDescriptor, 'WCx'), (pm.MeansContextDescriptor, 'MCx')):
                 if qn in children:
                     continue
                 cls = mdib.data_model.get_descriptor_container_class(qn)
@@ -221,68 +242,168 @@ def add_context_descriptors(mdib):
     return made
 
 
+def short_handles(handles):
+    return handles if handles is None or len(handles) <= 12 else handles[:12] + [f'... {len(handles)} handles']
+
+
+def ask_both(ctx, clients, s, handles, cls, detail, mark=None):
+    """one handle list sent to GetMdState and GetContextStates through the consumer clients, both answers judged on snapshot s"""
+    get_client, ctx_client = clients
+    kinds = handle_kinds(s, handles)
+    results = {}
+    for service in ('GetMdState', 'GetContextStates'):
+        d = {**detail, 'service': service, 'list_class': cls, 'mdib_version': s['version'][0]}
+        key = 'getmdstate' if service == 'GetMdState' else 'getcontextstates'
+        try:
+            res = get_client.get_md_state(handles) if service == 'GetMdState' else ctx_client.get_context_states(handles)
+        except Exception as ex:  # noqa: BLE001
+            ctx.witness(f'{key}.request_failed', f'{service} with a well-formed handle list failed',
+                        {**d, 'handles': short_handles(handles), 'exception': repr(ex)[:300]})
+            ctx.case((service, 'failed', kinds if len(kinds) <= 4 else tuple(sorted(set(kinds)))))
+            continue
+        if res.mdib_version_group.mdib_version != s['version'][0]:
+            ctx.not_decided(f'MDIB moved during a query ({res.mdib_version_group.mdib_version} != {s["version"][0]})')
+            continue
+        ok = judge_states(ctx, service, s, handles, res.result, d)
+        results[service] = (res, ok)
+        if mark:
+            ctx.count(f'{key}.{mark}')
+        if any(k.startswith('Mds') for k in kinds) and service == 'GetContextStates':
+            ctx.count('getcontextstates.with_mds_handle')
+            if detail.get('two_mds_have_states'):
+                ctx.count('getcontextstates.with_mds_handle.two_mds_have_states')
+        if any('#' in k for k in kinds):
+            ctx.count(f'{key}.with_repeated_handle')
+        n_sel = len(res.result.MdState.State if service == 'GetMdState' else res.result.ContextState)
+        ctx.case((service, kinds if len(kinds) <= 4 else tuple(sorted(set(kinds))), min(n_sel, 3), ok), nontrivial=True)
+    return results
+
+
+def evolve(ctx, mdib, rng, memo, weights, n_ops, removed):
+    for _ in range(n_ops):
+        ap = mdibops.apply_op(mdib, mdibops.gen_op(rng, mdib, memo, weights), memo)
+        if ap.outcome == 'ok' and ap.expect == 'commit' and ap.deleted_ctx:
+            removed.extend(sorted(ap.deleted_ctx))
+            ctx.count('history.context_states_removed', len(ap.deleted_ctx))
+
+
+def take_snapshot(ctx, mdib):
+    s = snap(mdib, with_index_check=False)
+    per_descr = Counter(_field(c, 'DescriptorHandle') for c in s['ctx'].values())
+    ctx.count('snapshot.taken')
+    ctx.count('snapshot.ctx_descr_with_2plus_states', sum(1 for n in per_descr.values() if n >= 2))
+    mds_with_ctx = {reference_selection(s, [], 'GetContextStates')[1](d) for d in per_descr}
+    if len(mds_with_ctx) >= 2:
+        ctx.count('snapshot.two_mds_with_context_states')
+    return s, len(mds_with_ctx) >= 2
+
+
+STATE_WEIGHTS = {'context': 30, 'location': 6, 'abort': 1, 'reject': 1, 'rt': 1, 'metric': 5, 'alert': 3, 'descr_create': 5, 'descr_delete': 4,
+                 'ctx_delete': 4}   # (no consumer MDIB is attached: context states may be removed through the entity interface)
+
+
+def directed_lists(ctx, s, rng, removed, sweep: bool):
+    out = c20_more.removed_ctx_lists(s, removed, rng)
+    if sweep:
+        out += c20_more.type_sweep(s, rng) + c20_more.big_lists(s, rng)
+    return out
+
+
 def w_states(ctx: core.Ctx, arg):
     rng = ctx.rng('states', arg['i'])
     weights = dict(mdibops.DEFAULT_WEIGHTS)
-    weights.update({'context': 30, 'location': 6, 'abort': 1, 'reject': 1, 'rt': 1, 'metric': 5, 'alert': 3, 'descr_create': 5, 'descr_delete': 4})
+    weights.update(STATE_WEIGHTS)
     for wno in range(arg['worlds']):
-        mdib_file = MDIB_FILES[(arg['i'] + wno) % len(MDIB_FILES)]
-        ctx_in_getmdib = (arg['i'] + wno) % 3 != 1    # the provider option contextstates_in_getmdib changes the code path of GetMdState
-        world = World(mdib_file, role_provider=False, contextstates_in_getmdib=ctx_in_getmdib)
+        k = arg['i'] + wno
+        mdib_file = MDIB_FILES[k % len(MDIB_FILES)]
+        ctx_in_getmdib = k % 3 != 1    # the provider option contextstates_in_getmdib changes the code path of GetMdState
+        async_mgr = (k // 4) % 2 == 1  # both provider component sets
+        switching = (k // 2) % 2 == 1  # the application switches the option while the provider is running
+        world = World(mdib_file, role_provider=False, contextstates_in_getmdib=ctx_in_getmdib, async_mgr=async_mgr)
         ctx.count(f'world.contextstates_in_getmdib.{ctx_in_getmdib}')
+        ctx.count(f'world.components.{"async" if async_mgr else "sync"}')
         try:
             mdib = world.mdib
             consumer, _ = world.add_consumer(with_mdib=False)
-            get_client, ctx_client = consumer.client('Get'), consumer.client('Context')
+            clients = (consumer.client('Get'), consumer.client('Context'))
             made = add_context_descriptors(mdib)
             ctx.count('world.context_descriptors_added', len(made))
-            memo = {}
+            memo, removed = {}, []
+            switched = False
             for rnd in range(arg['rounds']):
-                for _ in range(arg['ops']):
-                    mdibops.apply_op(mdib, mdibops.gen_op(rng, mdib, memo, weights), memo)
-                s = snap(mdib, with_index_check=False)
-                per_descr = Counter(_field(c, 'DescriptorHandle') for c in s['ctx'].values())
-                ctx.count('snapshot.taken')
-                ctx.count('snapshot.ctx_descr_with_2plus_states', sum(1 for n in per_descr.values() if n >= 2))
-                mds_with_ctx = {reference_selection(s, [], 'GetContextStates')[1](d) for d in per_descr}
-                if len(mds_with_ctx) >= 2:
-                    ctx.count('snapshot.two_mds_with_context_states')
+                evolve(ctx, mdib, rng, memo, weights, arg['ops'], removed)
+                s, two = take_snapshot(ctx, mdib)
+                base = {'mdib_file': mdib_file, 'transport': 'loop-back', 'async_components': async_mgr, 'two_mds_have_states': two}
+                for cls, handles in directed_lists(ctx, s, rng, removed, sweep=rnd % 5 == 0):
+                    detail = {**base, 'contextstates_in_getmdib': world.provider.contextstates_in_getmdib}
+                    ask_both(ctx, clients, s, handles, cls, detail)
+                    ctx.count(f'directed.{cls}')
                 for q in range(arg['queries']):
+                    if switching and q == arg['queries'] // 2:
+                        world.provider.contextstates_in_getmdib = not world.provider.contextstates_in_getmdib
+                        switched = True
+                        ctx.count('world.option_switched_at_runtime')
                     cls = LIST_CLASSES[q % len(LIST_CLASSES)] if q < 2 * len(LIST_CLASSES) else rng.choice(LIST_CLASSES)
                     handles = gen_handles(rng, cls, s, memo)
-                    for service in ('GetMdState', 'GetContextStates'):
-                        detail = {'mdib_file': mdib_file, 'service': service, 'list_class': cls, 'mdib_version': s['version'][0], 'contextstates_in_getmdib': ctx_in_getmdib}
-                        key = 'getmdstate' if service == 'GetMdState' else 'getcontextstates'
-                        try:
-                            if service == 'GetMdState':
-                                res = get_client.get_md_state(handles)
-                            else:
-                                res = ctx_client.get_context_states(handles)
-                        except Exception as ex:  # noqa: BLE001
-                            ctx.witness(f'{key}.request_failed', f'{service} with a well-formed handle list failed',
-                                        {**detail, 'handles': handles, 'exception': repr(ex)[:300]})
-                            ctx.case((service, 'failed', handle_kinds(s, handles)))
-                            continue
-                        if res.mdib_version_group.mdib_version != s['version'][0]:
-                            ctx.not_decided(f'MDIB moved during a query ({res.mdib_version_group.mdib_version} != {s["version"][0]})')
-                            continue
-                        ok = judge_states(ctx, service, s, handles, res.result, detail)
-                        kinds = handle_kinds(s, handles)
-                        ctx.count(f'list.{cls}')
-                        if any(k.startswith('Mds') for k in kinds) and service == 'GetContextStates':
-                            ctx.count('getcontextstates.with_mds_handle')
-                            if len(mds_with_ctx) >= 2:
-                                ctx.count('getcontextstates.with_mds_handle.two_mds_have_states')
-                        if any('#' in k for k in kinds):
-                            ctx.count(f'{key}.with_repeated_handle')
-                        n_sel = len(res.result.MdState.State if service == 'GetMdState' else res.result.ContextState)
-                        ctx.case((service, kinds if len(kinds) <= 4 else tuple(sorted(set(kinds))), min(n_sel, 3), ok), nontrivial=True)
-                        if rnd == 0 and wno == 0 and arg['i'] == 0 and q in (3, 11):
-                            ctx.sample({**detail, 'handles': handles, 'returned': sorted(observed_selection(
+                    detail = {**base, 'contextstates_in_getmdib': world.provider.contextstates_in_getmdib}
+                    results = ask_both(ctx, clients, s, handles, cls, detail, mark='responses.after_runtime_switch' if switched else None)
+                    ctx.count(f'list.{cls}')
+                    if rnd == 0 and wno == 0 and arg['i'] == 0 and q in (3, 11):
+                        for service, (res, _ok) in results.items():
+                            ctx.sample({**detail, 'service': service, 'list_class': cls, 'handles': handles, 'returned': sorted(observed_selection(
                                 res.result.MdState.State if service == 'GetMdState' else res.result.ContextState).elements())[:6]})
                 world.network.log.clear()
         finally:
             world.stop()
+
+
+def w_real(ctx: core.Ctx, arg):
+    """the same monitors with NOTHING replaced below the service clients: real HTTP servers / clients on 127.0.0.1, the library's default
+    components (sync or async provider set), compression, optional chunking."""
+    from ..realworld import RealWorld
+    rng = ctx.rng('real', arg['i'])
+    k = arg['i']
+    mdib_file = MDIB_FILES[(k + 2 + k // 4) % len(MDIB_FILES)]   # job 0 gets the two-MDS MDIB
+    async_mgr = k % 2 == 0
+    chunk = [0, 300, 0, 41][k % 4]
+    ctx_in_getmdib = k % 4 != 3
+    try:
+        world = RealWorld(mdib_file, async_mgr=async_mgr, chunk_size=chunk, contextstates_in_getmdib=ctx_in_getmdib)
+    except Exception as ex:  # noqa: BLE001
+        ctx.not_decided(f'real-socket world could not be set up: {ex!r}')
+        return
+    try:
+        mdib = world.mdib
+        consumer, _ = world.add_consumer(with_mdib=False)
+        clients = (consumer.client('Get'), consumer.client('Context'))
+        add_context_descriptors(mdib)
+        weights = dict(mdibops.DEFAULT_WEIGHTS)
+        weights.update(STATE_WEIGHTS)
+        memo, removed = {}, []
+        ctx.count(f'real.world.{"async" if async_mgr else "sync"}')
+        if chunk:
+            ctx.count('real.world.chunked')
+        for rnd in range(arg['rounds']):
+            evolve(ctx, mdib, rng, memo, weights, arg['ops'], removed)
+            s, two = take_snapshot(ctx, mdib)
+            detail = {'mdib_file': mdib_file, 'transport': 'real sockets', 'async_components': async_mgr, 'chunk_size': chunk,
+                      'contextstates_in_getmdib': ctx_in_getmdib, 'two_mds_have_states': two}
+            lists = directed_lists(ctx, s, rng, removed, sweep=rnd == 0)
+            lists += [(cls, gen_handles(rng, cls, s, memo)) for cls in LIST_CLASSES[:arg['queries']]]
+            for cls, handles in lists:
+                for service, (_res, _ok) in ask_both(ctx, clients, s, handles, cls, detail).items():
+                    ctx.count(f'real.{"getmdstate" if service == "GetMdState" else "getcontextstates"}.responses')
+        client = consumer.localization_service_client
+        service = world.provider.hosted_services.localization_service
+        if client is None or service is None:
+            ctx.not_decided('LocalizationService not available')
+            return
+        before = ctx.counters['getlocalizedtext.responses']
+        text_session(ctx, ctx.rng('real-texts', arg['i']), world.provider, service, client,
+                     {'i': arg['i'], 'stores': arg['stores'], 'extra': 0, 'first': 6 + arg['i'] * arg['stores']}, 'real sockets')
+        ctx.count('real.getlocalizedtext.responses', ctx.counters['getlocalizedtext.responses'] - before)
+    finally:
+        world.stop()
 
 
 # ------------------------------------------------------------------------------------------------
@@ -296,7 +417,7 @@ WORDS = ['alpha', 'beta gamma', 'Größe', '東京', 'x', 'a&b <c>', 'line']
 
 
 def text_key(t):
-    return (t.text, t.Lang, t.Ref, t.Version, t.TextWidth.value if t.TextWidth is not None else None)
+    return (t.text or '', t.Lang, t.Ref, t.Version, t.TextWidth.value if t.TextWidth is not None else None)
 
 
 def min_lines(text: str) -> int:
@@ -333,7 +454,7 @@ def gen_request(rng, pattern, store):
         if rng.random() < 0.15:
             req['refs'].append(req['refs'][0])
     if pattern & 2:
-        req['version'] = rng.choice(versions + [max(versions) + 1]) if rng.random() < 0.9 else 0
+        req['version'] = rng.choice(versions + [min(max(versions) + 1, c20_more.U64)]) if rng.random() < 0.9 else 0
     if pattern & 4:
         req['langs'] = rng.sample(langs, rng.randrange(1, min(2, len(langs)) + 1)) + (['xx'] if rng.random() < 0.2 else [])
     if pattern & 8:
@@ -347,6 +468,7 @@ def judge_texts(ctx, store, req, returned, detail):
     stored = Counter(text_key(t) for t in store)
     got = Counter(text_key(t) for t in returned)
     info = {**detail, 'request': {k: [getattr(x, 'value', x) for x in v] if isinstance(v, list) else v for k, v in req.items()}}
+    req = {k: v for k, v in req.items() if not (isinstance(v, list) and not v)}  # an empty list is no element on the wire = no constraint
     ok = True
     ctx.count('getlocalizedtext.responses')
     ctx.count('getlocalizedtext.texts_returned', sum(got.values()))
@@ -371,7 +493,7 @@ def judge_texts(ctx, store, req, returned, detail):
                 bad('version_constraint', 'returned text has a Version different from the requested one', t)
         if 'langs' in req:
             ctx.count('constraint.lang.judged')
-            if lang not in req['langs']:
+            if lang not in req['langs'] and str(lang).lower() not in [x.lower() for x in req['langs']]:  # (tags are case-insensitive)
                 bad('lang_constraint', 'returned text has a Lang that was not requested', t)
         if 'text_widths' in req:
             ctx.count('constraint.width.judged')
@@ -407,9 +529,143 @@ def judge_texts(ctx, store, req, returned, detail):
     return ok
 
 
+def judge_languages(ctx, client, store, detail, phase):
+    try:
+        langs = list(client.get_supported_languages().result.Lang)
+    except Exception as ex:  # noqa: BLE001
+        ctx.witness('getsupportedlanguages.request_failed', 'GetSupportedLanguages failed', {**detail, 'phase': phase, 'exception': repr(ex)[:300]})
+        return
+    ctx.count('getsupportedlanguages.responses')
+    ctx.count(f'getsupportedlanguages.responses.{phase}')
+    want = {t.Lang for t in store}
+    if set(langs) != want:
+        ctx.witness('getsupportedlanguages.differs', 'GetSupportedLanguages does not list exactly the stored languages',
+                    {**detail, 'phase': phase, 'listed': sorted(langs), 'stored': sorted(want)})
+    elif len(langs) != len(want):
+        ctx.witness('getsupportedlanguages.listed_twice', 'GetSupportedLanguages lists a stored language more than once',
+                    {**detail, 'phase': phase, 'listed': sorted(langs), 'stored': sorted(want)})
+    ctx.case(('langs', detail['store_style'], phase, len(want)), nontrivial=bool(store))
+
+
+STYLES = ['uniform', 'unversioned', 'two', 'ragged', 'with_none', 'empty'] + c20_more.BOUNDARY_STYLES
+
+
+def text_session(ctx, rng, provider, service, client, arg, transport):
+    """stores x requests against one running provider.  The storage is driven through its whole API: constructor with / without texts,
+    add() of one / many texts before and between requests, in-place revision of stored texts, replacement of the storage object (the
+    library offers no other way to remove texts)."""
+    ints_ok = None
+
+    def request(store, req, detail, shape):
+        nonlocal ints_ok
+        send = dict(req)
+        if 'number_of_lines' in req and req['number_of_lines'] and not ints_ok:
+            if ints_ok is None:  # first request with a NumberOfLines list: as documented (list[int])
+                try:
+                    client.get_localized_texts(**req)
+                    ints_ok = True
+                except (TypeError, ValueError) as ex:
+                    ints_ok = False
+                    ctx.witness('getlocalizedtext.client.number_of_lines_not_serializable',
+                                'LocalizationServiceClient.get_localized_texts(number_of_lines=[int, ...]) cannot build the request',
+                                {'request': repr(req)[:300], 'exception': repr(ex)[:160]})
+            if not ints_ok:  # work-around so that the provider side is still observed: the values as xml text
+                send['number_of_lines'] = [str(n) for n in req['number_of_lines']]
+                ctx.count('getlocalizedtext.lines_sent_as_text')
+        try:
+            res = client.get_localized_texts(**send)
+        except Exception as ex:  # noqa: BLE001
+            ctx.witness('getlocalizedtext.request_failed', 'GetLocalizedText with valid parameters failed',
+                        {**detail, 'request': repr(req)[:300], 'exception': repr(ex)[:300]})
+            ctx.case(('text', detail['store_style'], shape, 'failed'))
+            return None
+        ok = judge_texts(ctx, store, req, res.result.Text, detail)
+        n = len(res.result.Text)
+        ctx.case(('text', detail['store_style'], shape, min(n, 3), len(req.get('text_widths', [])), len(req.get('number_of_lines', [])), ok),
+                 nontrivial=bool(store))
+        return res
+
+    for sno in range(arg['stores']):
+        style = STYLES[(sno + arg.get('first', arg['i'])) % len(STYLES)]
+        if style == 'empty':
+            store = []
+        elif style in c20_more.BOUNDARY_STYLES:
+            store = c20_more.boundary_store(rng, style)
+        else:
+            store = gen_store(rng, style)
+        # a fresh, real storage object, filled through the constructor, through add(), or through both
+        how = ['add', 'constructor', 'constructor+add', 'add_one_by_one'][(sno + arg['i']) % 4]
+        if how == 'add':
+            service.localization_storage = LocalizationStorage()
+            provider.localization_storage.add(*store)
+        elif how == 'constructor':
+            service.localization_storage = LocalizationStorage(list(store))
+        elif how == 'constructor+add':
+            service.localization_storage = LocalizationStorage(store[:len(store) // 2])
+            provider.localization_storage.add(*store[len(store) // 2:])
+        else:
+            service.localization_storage = LocalizationStorage(None)
+            for t in store:
+                provider.localization_storage.add(t)
+        ctx.count(f'store.{style}')
+        ctx.count(f'store.filled_by.{how}')
+        detail = {'store_style': style, 'n_texts': len(store), 'filled_by': how, 'transport': transport}
+        judge_languages(ctx, client, store, detail, 'initial')
+        patterns = list(range(32)) + [0] + [rng.randrange(32) for _ in range(arg['extra'])]
+        for pno, pattern in enumerate(patterns):
+            if pno == len(patterns) // 2 and store:
+                # the application revises stored texts in place and adds texts derived from stored ones (copy + new wording), after the
+                # service has already answered requests about them
+                import copy as _copy
+                for t in rng.sample(store, min(len(store), 4)):
+                    lines = rng.choice([1, 2, 3, 4])
+                    t.text = '\n'.join(f'revised {rng.choice(WORDS)} {rng.randrange(1000)}' for _ in range(lines))
+                    ctx.count('store.texts_revised_in_place')
+                for t in rng.sample(store, min(len(store), 3)):
+                    c = _copy.deepcopy(t)
+                    lines = rng.choice([1, 2, 3, 4])
+                    c.text = '\n'.join(f'derived {rng.choice(WORDS)} {rng.randrange(1000)}' for _ in range(lines))
+                    provider.localization_storage.add(c)
+                    store.append(c)
+                    ctx.count('store.texts_derived_from_stored')
+                # ... and a translation into a language that the store did not have (in the latest / an old / no version)
+                t = rng.choice(store)
+                versions = sorted({x.Version for x in store if x.Version is not None})
+                v = rng.choice([t.Version, versions[0] if versions else None, versions[-1] if versions else None])
+                new = pm_types.LocalizedText(f'tradução {rng.randrange(1000)}', lang='pt-BR', ref=t.Ref, version=v, text_width=t.TextWidth)
+                provider.localization_storage.add(new)
+                store.append(new)
+                ctx.count('store.language_added_later')
+                judge_languages(ctx, client, store, detail, 'after_add')
+            req = gen_request(rng, pattern, store)
+            res = request(store, req, detail, pattern)
+            if res is None:
+                continue
+            ctx.count(f'pattern.{pattern:05b}')
+            if sno == 0 and arg['i'] == 0 and pattern in (0, 13):
+                ctx.sample({**detail, 'request': repr(req), 'returned': [text_key(t) for t in res.result.Text][:4]})
+        # boundary values of every filter parameter (directed, the same list for every store)
+        for bno, req in enumerate(c20_more.boundary_requests(store)):
+            if request(store, req, detail, f'b{bno}') is not None:
+                ctx.count('getlocalizedtext.boundary_requests')
+                for name in req:
+                    ctx.count(f'boundary.{name}')
+        # removal: the storage object is replaced by one that holds a part of the texts - the others must be gone
+        if store:
+            kept = store[::2]
+            service.localization_storage = LocalizationStorage(kept)
+            ctx.count('store.replaced_by_subset')
+            d2 = {**detail, 'phase': 'storage replaced by a storage with every second text', 'n_texts': len(kept)}
+            judge_languages(ctx, client, kept, d2, 'after_replace')
+            for req in ({}, {'version': 0}, gen_request(rng, rng.randrange(1, 32), store)):
+                if request(kept, req, d2, 'replaced') is not None:
+                    ctx.count('getlocalizedtext.after_replace')
+
+
 def w_texts(ctx: core.Ctx, arg):
     rng = ctx.rng('texts', arg['i'])
-    world = World(MDIB_FILES[arg['i'] % len(MDIB_FILES)], role_provider=False)
+    async_mgr = arg['i'] % 2 == 1
+    world = World(MDIB_FILES[arg['i'] % len(MDIB_FILES)], role_provider=False, async_mgr=async_mgr)
     try:
         consumer, _ = world.add_consumer(with_mdib=False)
         client = consumer.localization_service_client
@@ -417,102 +673,50 @@ def w_texts(ctx: core.Ctx, arg):
         if client is None or service is None:
             ctx.not_decided('LocalizationService not available')
             return
-        styles = ['uniform', 'unversioned', 'two', 'ragged', 'with_none', 'empty']
-        ints_ok = None
-        for sno in range(arg['stores']):
-            style = styles[(sno + arg['i']) % len(styles)]
-            store = [] if style == 'empty' else gen_store(rng, style)
-            service.localization_storage = LocalizationStorage()  # a fresh, real storage object
-            world.provider.localization_storage.add(*store)
-            ctx.count(f'store.{style}')
-            detail = {'store_style': style, 'n_texts': len(store)}
-            # languages
-            try:
-                langs = list(client.get_supported_languages().result.Lang)
-            except Exception as ex:  # noqa: BLE001
-                ctx.witness('getsupportedlanguages.request_failed', 'GetSupportedLanguages failed', {**detail, 'exception': repr(ex)[:300]})
-                langs = None
-            if langs is not None:
-                ctx.count('getsupportedlanguages.responses')
-                want = {t.Lang for t in store}
-                if set(langs) != want:
-                    ctx.witness('getsupportedlanguages.differs', 'GetSupportedLanguages does not list exactly the stored languages',
-                                {**detail, 'listed': sorted(langs), 'stored': sorted(want)})
-                ctx.case(('langs', style, len(want)), nontrivial=bool(store))
-            patterns = list(range(32)) + [0] + [rng.randrange(32) for _ in range(arg['extra'])]
-            for pno, pattern in enumerate(patterns):
-                if pno == len(patterns) // 2 and store:
-                    # the application revises stored texts in place and adds texts derived from stored ones (copy + new wording), after the
-                    # service has already answered requests about them
-                    import copy as _copy
-                    for t in rng.sample(store, min(len(store), 4)):
-                        lines = rng.choice([1, 2, 3, 4])
-                        t.text = '\n'.join(f'revised {rng.choice(WORDS)} {rng.randrange(1000)}' for _ in range(lines))
-                        ctx.count('store.texts_revised_in_place')
-                    for t in rng.sample(store, min(len(store), 3)):
-                        c = _copy.deepcopy(t)
-                        lines = rng.choice([1, 2, 3, 4])
-                        c.text = '\n'.join(f'derived {rng.choice(WORDS)} {rng.randrange(1000)}' for _ in range(lines))
-                        world.provider.localization_storage.add(c)
-                        store.append(c)
-                        ctx.count('store.texts_derived_from_stored')
-                req = gen_request(rng, pattern, store)
-                send = dict(req)
-                if 'number_of_lines' in req and not ints_ok:
-                    if ints_ok is None:  # first request with a NumberOfLines list: as documented (list[int])
-                        try:
-                            client.get_localized_texts(**req)
-                            ints_ok = True
-                        except (TypeError, ValueError) as ex:
-                            ints_ok = False
-                            ctx.witness('getlocalizedtext.client.number_of_lines_not_serializable',
-                                        'LocalizationServiceClient.get_localized_texts(number_of_lines=[int, ...]) cannot build the request',
-                                        {'request': repr(req)[:300], 'exception': repr(ex)[:160]})
-                    if not ints_ok:  # work-around so that the provider side is still observed: the values as xml text
-                        send['number_of_lines'] = [str(n) for n in req['number_of_lines']]
-                        ctx.count('getlocalizedtext.lines_sent_as_text')
-                try:
-                    res = client.get_localized_texts(**send)
-                except Exception as ex:  # noqa: BLE001
-                    ctx.witness('getlocalizedtext.request_failed', 'GetLocalizedText with valid parameters failed',
-                                {**detail, 'request': repr(req)[:300], 'exception': repr(ex)[:300]})
-                    ctx.case(('text', style, pattern, 'failed'))
-                    continue
-                ok = judge_texts(ctx, store, req, res.result.Text, detail)
-                ctx.count(f'pattern.{pattern:05b}')
-                n = len(res.result.Text)
-                ctx.case(('text', style, pattern, min(n, 3), len(req.get('text_widths', [])), len(req.get('number_of_lines', [])), ok),
-                         nontrivial=bool(store))
-                if sno == 0 and arg['i'] == 0 and pattern in (0, 13):
-                    ctx.sample({**detail, 'request': repr(req), 'returned': [text_key(t) for t in res.result.Text][:4]})
-            world.network.log.clear()
+        text_session(ctx, rng, world.provider, service, client, arg, 'loop-back')
+        world.network.log.clear()
     finally:
         world.stop()
 
 
 # ------------------------------------------------------------------------------------------------
 def run(ctx: core.Ctx):
-    ctx.rule = ('states: 4 sample MDIBs (+ context descriptors added under every SystemContext) evolved by seeded vf.mdibops histories; per '
-                'quiescent point generated handle lists of 20 classes (empty / one of each kind / unknown / repeated / descriptor + own state / '
-                'MDS handles / mixed / deleted) sent to GetMdState and GetContextStates through the consumer clients; distinct = (service, kinds '
-                'of the listed handles incl. repetition marks, size class of the answer, verdict).  texts: generated stores (6 version styles) x '
-                'all 32 presence patterns of Ref/Version/Lang/TextWidth/NumberOfLines (+ random repeats); distinct = (store style, pattern, '
-                'size class, #widths, #lines, verdict); non-trivial = store not empty.')
+    ctx.rule = ('states: 4 sample MDIBs (+ the missing context descriptor kinds added under every SystemContext) evolved by seeded vf.mdibops '
+                'histories incl. removal of context states; per quiescent point generated handle lists of 20 classes (empty / one of each kind / '
+                'unknown / repeated / descriptor + own state / MDS handles / mixed / deleted) + directed lists (one handle of every descriptor '
+                'NODETYPE, every descriptor, every context state, everything twice, 200 unknown + 1, removed context state handles) sent to '
+                'GetMdState and GetContextStates through the consumer clients - loop-back worlds with the sync and the async provider components, '
+                'contextstates_in_getmdib on / off / switched at runtime, and real-socket worlds with the default components (chunked requests); '
+                'distinct = (service, kinds of the listed handles incl. repetition marks, size class of the answer, verdict).  texts: generated '
+                'stores (6 version styles + 5 boundary styles, filled through constructor / add / both / one by one, revised and extended between '
+                'requests, finally replaced by a subset) x all 32 presence patterns of Ref/Version/Lang/TextWidth/NumberOfLines (+ random '
+                'repeats) + 34 directed boundary requests; distinct = (store style, pattern or boundary request, size class, #widths, #lines, '
+                'verdict); non-trivial = store not empty.')
     ctx.assumptions += [
-        'contextstates_in_getmdib=True (default) for GetMdState; handles of context states never equal descriptor handles (C10)',
+        'GetMdState is judged with the value of SdcProvider.contextstates_in_getmdib at the time of the request (False: single states only); '
+        'handles of context states never equal descriptor handles (C10)',
+        'a returned state is compared with the MDIB state through vf.history.canon (semantic content, timestamps +-1 ms)',
         'texts: number of lines is judged with the lower bound "paragraphs" (split at newline), a text without TextWidth is never judged '
-        'against a width constraint, completeness is not demanded for width / lines constrained requests',
+        'against a width constraint, completeness is not demanded for width / lines constrained requests, a parameter given as an empty list '
+        '(no element on the wire) is no constraint, language tags are compared case-insensitively',
         'unconstrained GetLocalizedText: required = texts whose Version is the highest of the store, tolerated = latest per (Ref, Lang) and '
         'unversioned texts, forbidden = superseded texts (both readings of "latest version" accepted)',
-        'stored texts carry Ref and Lang (texts without Lang are not generated)',
+        'stored texts carry Ref and Lang (texts without Lang are not generated); the library has no API to remove a text - removal = '
+        'replacing the storage object of the service',
     ]
     if ctx.quick:
         s_jobs = [['w_states', {'i': k, 'worlds': 1, 'rounds': 3, 'ops': 25, 'queries': 45}] for k in range(12)]
-        t_jobs = [['w_texts', {'i': k, 'stores': 6, 'extra': 8}] for k in range(4)]
+        t_jobs = [['w_texts', {'i': k, 'stores': 6, 'extra': 8, 'first': 6 * k}] for k in range(4)]
+        r_jobs = [['w_real', {'i': k, 'rounds': 2, 'ops': 20, 'queries': 20, 'stores': 2}] for k in range(4)]
     else:
         s_jobs = [['w_states', {'i': k, 'worlds': 3, 'rounds': 10, 'ops': 30, 'queries': 100}] for k in range(24)]
-        t_jobs = [['w_texts', {'i': k, 'stores': 60, 'extra': 30}] for k in range(8)]
-    core.fanout(ctx, MODULE, 'dispatch', s_jobs + t_jobs, timeout=2400)
+        t_jobs = [['w_texts', {'i': k, 'stores': 60, 'extra': 30, 'first': 7 * k}] for k in range(8)]
+        r_jobs = [['w_real', {'i': k, 'rounds': 8, 'ops': 30, 'queries': 20, 'stores': 11}] for k in range(16)]
+    core.fanout(ctx, MODULE, 'dispatch', r_jobs + s_jobs + t_jobs, timeout=2400)
+    if os.environ.get('VERIF_C20_DUMP'):   # development aid: all counters (the console shows the first 40 only)
+        import json
+        with open(os.environ['VERIF_C20_DUMP'], 'w') as f:
+            json.dump({'counters': dict(sorted(ctx.counters.items())), 'witnesses': dict(ctx.witness_counts)}, f, indent=1)
     ctx.floor('getmdstate.responses', 1000)
     ctx.floor('getcontextstates.responses', 1000)
     ctx.floor('getcontextstates.with_mds_handle.two_mds_have_states', 20)
@@ -525,6 +729,30 @@ def run(ctx: core.Ctx):
     ctx.floor('getsupportedlanguages.responses', 20)
     for c in ('ref', 'version', 'lang', 'width', 'lines'):
         ctx.floor(f'constraint.{c}.judged', 50)
+    # round 4
+    ctx.floor('getmdstate.contents_compared', 5000)
+    ctx.floor('getcontextstates.contents_compared', 2000)
+    ctx.floor('getmdstate.responses.after_runtime_switch', 100)
+    ctx.floor('world.components.async', 2)
+    ctx.floor('world.components.sync', 2)
+    ctx.floor('real.getmdstate.responses', 100)
+    ctx.floor('real.getcontextstates.responses', 100)
+    ctx.floor('real.getlocalizedtext.responses', 100)
+    ctx.floor('directed.removed_ctx_state', 5)
+    ctx.floor('directed.big.everything_twice', 10)
+    for t in ('Mds', 'SystemContext', 'Vmd', 'Channel', 'NumericMetric', 'AlertSystem', 'AlertCondition', 'Sco', 'PatientContext', 'LocationContext',
+              'EnsembleContext', 'OperatorContext', 'WorkflowContext', 'MeansContext'):
+        ctx.floor(f'directed.type.{t}', 4)
+    ctx.floor('getlocalizedtext.boundary_requests', 500)
+    for name in ('refs', 'version', 'langs', 'text_widths', 'number_of_lines'):
+        ctx.floor(f'boundary.{name}', 100)
+    ctx.floor('getsupportedlanguages.responses.after_add', 10)
+    ctx.floor('getsupportedlanguages.responses.after_replace', 10)
+    ctx.floor('getlocalizedtext.after_replace', 30)
+    for how in ('add', 'constructor', 'constructor+add', 'add_one_by_one'):
+        ctx.floor(f'store.filled_by.{how}', 2)
+    for style in c20_more.BOUNDARY_STYLES:
+        ctx.floor(f'store.{style}', 1)
 
 
 def dispatch(ctx: core.Ctx, job):
